@@ -323,75 +323,6 @@ func (c *Ctx) ruleR01d(rule string, strictPrune bool) {
 	c.checkCacheGet(rule)
 }
 
-// coversLoop describes the loop that compares the counters of a stored context with the current one.
-type coversLoop struct {
-	fn              *ssa.Function
-	stored, current ssa.Value   // the two IntMap values compared (in fn's terms)
-	rejectWhen      token.Token // comparison stored OP current under which the loop rejects
-	rejectRet       *ssa.Return
-	keysOfStored    bool
-	at              ssa.Instruction
-}
-
-// findCoversLoop looks in fn for `for key in X.Keys() { if A.Get(key) OP B.Get(key) { <exit> } }`.
-func findCoversLoop(fn *ssa.Function) *coversLoop {
-	for _, b := range fn.Blocks {
-		if len(b.Instrs) == 0 {
-			continue
-		}
-		ifi, ok := b.Instrs[len(b.Instrs)-1].(*ssa.If)
-		if !ok {
-			continue
-		}
-		op, x, y, isCmp := ssax.CmpOp(ifi.Cond)
-		if !isCmp {
-			continue
-		}
-		gx, okx := isStaticMethod(x, "data", "IntMap", "Get")
-		gy, oky := isStaticMethod(y, "data", "IntMap", "Get")
-		if !okx || !oky || gx.Call.Args[1] != gy.Call.Args[1] {
-			continue
-		}
-		// which side's Keys() does the key range over?
-		key := gx.Call.Args[1]
-		var rangedOver ssa.Value
-		if u, ok := key.(*ssa.UnOp); ok && u.Op == token.MUL {
-			if ia, ok := u.X.(*ssa.IndexAddr); ok {
-				for _, l := range ssax.Leaves(ia.X) {
-					if kc, isK := isStaticMethod(l, "data", "IntMap", "Keys"); isK {
-						rangedOver = kc.Call.Args[0]
-					}
-				}
-			}
-		}
-		// which successor leaves the loop by returning?
-		exitIdx := -1
-		var exitRet *ssa.Return
-		for i, s := range b.Succs {
-			if r, ok := s.Instrs[len(s.Instrs)-1].(*ssa.Return); ok && !ssax.Reaches(s, b, false) {
-				exitIdx = i
-				exitRet = r
-			}
-		}
-		if exitIdx < 0 {
-			continue
-		}
-		if exitIdx == 1 {
-			op = ssax.Negate(op)
-		}
-		cl := &coversLoop{fn: fn, stored: gx.Call.Args[0], current: gy.Call.Args[0], rejectWhen: op, rejectRet: exitRet, at: ifi}
-		cl.keysOfStored = rangedOver != nil && sameIntMapValue(rangedOver, cl.stored)
-		if rangedOver != nil && sameIntMapValue(rangedOver, cl.current) {
-			// the loop ranges over the right-hand side: swap so that `stored` is always the ranged one
-			cl.stored, cl.current = cl.current, cl.stored
-			cl.rejectWhen = ssax.Swap(op)
-			cl.keysOfStored = true
-		}
-		return cl
-	}
-	return nil
-}
-
 // sameIntMapValue: two IntMap-typed values are the same variable: identical, or loads of the same field of the same base.
 func sameIntMapValue(a, b ssa.Value) bool {
 	a, b = ssax.Strip(a), ssax.Strip(b)
@@ -401,161 +332,6 @@ func sameIntMapValue(a, b ssa.Value) bool {
 	ba, fa, oka := fieldLoad(a)
 	bb, fb, okb := fieldLoad(b)
 	return oka && okb && fa == fb && ba == bb
-}
-
-// checkCacheGet analyses (parsley.ResultCache).Get: a hit may happen only for an existing entry whose stored counters
-// are all <= the current ones. The comparison loop may live in Get itself or in a helper it calls.
-func (c *Ctx) checkCacheGet(rule string) {
-	var get *ssa.Function
-	for _, fn := range c.P.LibFuncs {
-		if fn.Synthetic == "" && isResultCacheMethod(fn, "Get") {
-			get = fn
-		}
-	}
-	if get == nil {
-		c.R.Fail("coverage-lost", rule, "ResultCache.Get", "-", "-", "(parsley.ResultCache).Get not found")
-		return
-	}
-	fn := c.name(get)
-	L := ownParam(get, "data", "IntMap")
-	if L == nil {
-		c.R.Undecided(rule, fn+" shape", fn, c.P.Pos(get.Pos()), "Get has no unique context parameter")
-		return
-	}
-	// the entry: a comma-ok map lookup yielding *Result
-	var entry, found ssa.Value
-	for _, b := range get.Blocks {
-		for _, in := range b.Instrs {
-			if lk, ok := in.(*ssa.Lookup); ok && lk.CommaOk {
-				if ptr, isPtr := lk.Type().(*types.Tuple).At(0).Type().(*types.Pointer); isPtr && ssax.NamedIs(ptr.Elem(), "parsley", "Result") {
-					for _, e := range ssax.Extracts(lk, 0) {
-						entry = e
-					}
-					for _, e := range ssax.Extracts(lk, 1) {
-						found = e
-					}
-				}
-			}
-		}
-	}
-	if entry == nil || found == nil {
-		c.R.Undecided(rule, fn+" shape", fn, c.P.Pos(get.Pos()), "Get does not look the entry up with a comma-ok map access yielding *Result")
-		return
-	}
-	isStoredCtx := func(v ssa.Value) bool {
-		base, name, isLoad := fieldLoad(ssax.Strip(v))
-		return isLoad && name == "LeftRecCtx" && base == entry
-	}
-	// locate the comparison loop: in Get, or in a bool helper called from Get
-	loop := findCoversLoop(get)
-	var helperCall *ssa.Call
-	acceptValue := true
-	if loop == nil {
-		for _, call := range ssax.Calls(get) {
-			cl, ok := call.(*ssa.Call)
-			if !ok {
-				continue
-			}
-			sc := cl.Call.StaticCallee()
-			if sc == nil || !c.P.InLib(sc) || sc.Signature.Results().Len() != 1 {
-				continue
-			}
-			if bt, ok := sc.Signature.Results().At(0).Type().Underlying().(*types.Basic); !ok || bt.Kind() != types.Bool {
-				continue
-			}
-			if l := findCoversLoop(sc); l != nil {
-				loop, helperCall = l, cl
-				if k, isC := ssax.ConstBool(l.rejectRet.Results[0]); isC {
-					acceptValue = !k
-				}
-			}
-		}
-	}
-	if loop == nil {
-		c.R.Undecided(rule, fn+" reuse test", fn, c.P.Pos(get.Pos()), "the loop comparing stored and current counters was not found in Get or in a helper it calls")
-		return
-	}
-	where := c.name(loop.fn)
-	// bind the loop's operands to Get's entry and parameter
-	storedOK, currentOK := false, false
-	if helperCall == nil {
-		storedOK, currentOK = isStoredCtx(loop.stored), ssax.Strip(loop.current) == ssa.Value(L)
-	} else {
-		for i, p := range loop.fn.Params {
-			if i >= len(helperCall.Call.Args) {
-				break
-			}
-			a := helperCall.Call.Args[i]
-			if ssax.Strip(loop.stored) == ssa.Value(p) && isStoredCtx(a) {
-				storedOK = true
-			}
-			if ssax.Strip(loop.current) == ssa.Value(p) && ssax.Strip(a) == ssa.Value(L) {
-				currentOK = true
-			}
-		}
-	}
-	switch {
-	case !storedOK || !currentOK:
-		// maybe the operands are the other way round: the loop ranges over the CURRENT context's keys
-		c.R.Violation(rule, fn+" key range", where, c.P.InstrPos(loop.at), "the reuse test does not compare, for every key of the STORED context (entry.LeftRecCtx.Keys()), the stored counter with the current one: some stored counter is never compared, and a result is reused where less recursion was allowed than it depends on")
-	case !loop.keysOfStored:
-		c.R.Violation(rule, fn+" key range", where, c.P.InstrPos(loop.at), "the reuse test does not iterate over the keys of the stored context (IntMap.Keys of entry.LeftRecCtx): some stored counter is never compared")
-	case loop.rejectWhen == token.GTR || loop.rejectWhen == token.GEQ:
-		c.R.Hold(rule, where+" reuse test @"+c.P.InstrPos(loop.at), "rejects when a stored count exceeds the current count, over all stored keys")
-	default:
-		c.R.Violation(rule, fn+" reuse test direction", where, c.P.InstrPos(loop.at), fmt.Sprintf("the cache rejects a stored result when stored count %s current count: the reuse condition is 'stored count <= current count for every stored key'; with the direction changed results computed under a tighter context are reused where more recursion was allowed", loop.rejectWhen))
-	}
-	// every hit of Get is behind 'entry found' and 'reuse test passed'
-	for _, r := range ssax.Returns(get) {
-		if len(r.Results) != 2 {
-			continue
-		}
-		site := fn + " return @" + c.P.InstrPos(r)
-		fv, isC := ssax.ConstBool(r.Results[1])
-		if !isC {
-			c.R.Undecided(rule, fn+" non-constant found result", fn, c.P.InstrPos(r), "Get returns a computed `found` flag; the recognised shape returns constants")
-			continue
-		}
-		if !fv {
-			c.R.Examined(1) // refusing to reuse is always safe for completeness (at-most-once is R03's business)
-			continue
-		}
-		if ssax.Strip(r.Results[0]) != entry {
-			c.R.Violation(rule, fn+" hit returns other value", fn, c.P.InstrPos(r), "on success Get returns something else than the looked-up entry")
-			continue
-		}
-		hasFound, passed := false, false
-		for _, cd := range ssax.DominatingConds(r.Block()) {
-			if cd.Val == found && cd.Truth {
-				hasFound = true
-			}
-			if helperCall != nil && cd.Val == ssa.Value(helperCall) && cd.Truth == acceptValue {
-				passed = true
-			}
-		}
-		if helperCall == nil {
-			// the loop is in Get: the hit must not be reachable from the reject edge, and must come after the loop
-			passed = loop.at.Block().Dominates(r.Block()) || loopHeaderOf(loop.at.Block()).Dominates(r.Block())
-		}
-		if hasFound && passed {
-			c.R.Hold(rule, site, "hit only for an existing entry that passed the reuse test")
-		} else {
-			c.R.Violation(rule, fn+" hit without reuse test", fn, c.P.InstrPos(r), fmt.Sprintf("a path returns the cached entry as a hit without 'entry found' (%v) and 'stored counters <= current counters' (%v) both established: results are reused in contexts they are not valid for", hasFound, passed))
-		}
-	}
-	// at-most-once side (used by C03 through the same rule): a miss only for 'no entry' or a failed reuse test is
-	// checked there by R03a/R03f; nothing more here
-}
-
-// loopHeaderOf returns the outermost block of the natural loop containing b (b itself if none).
-func loopHeaderOf(b *ssa.BasicBlock) *ssa.BasicBlock {
-	h := b
-	for _, x := range b.Parent().Blocks {
-		if x.Dominates(b) && ssax.Reaches(b, x, false) && x.Dominates(h) {
-			h = x
-		}
-	}
-	return h
 }
 
 // ruleR01e: the slice of nodes a sequence hands to its result handler holds exactly the elements of the current
